@@ -410,11 +410,126 @@ def m_carried_evidence(rec, sig):
             and set(s.get("fields", [])) <= {"logZ", "logZerr", "evidence", "evidenceErr"} and s.get("fields"))
 
 
-MATCHERS = {"smc_concatenate_drops_beta_evidence": m_smc_concat,
+def m_empty_weighted(rec, sig):
+    s = rec["signature"]
+    return s.get("corpus") == "empty" and s.get("cls") == "samples" and s.get("weighted") is True and s.get("exc") in ("ValueError", "RuntimeError")
+
+
+MATCHERS = {"empty_weighted_samples_cannot_be_built": m_empty_weighted, "smc_concatenate_drops_beta_evidence": m_smc_concat,
             "constructor_recomputes_carried_evidence": m_carried_evidence}
 
 
+def check_corpus(chk: core.Check):
+    """deterministic edge cases of the same clauses, checked against plain arrays (no model in between):
+       (a) a per-sample field that is NaN in EVERY row (the likelihood failed everywhere) survives the dictionary round trip as a field;
+       (b) an empty selection keeps every field (as an empty column) through the dictionary round trip and a partition through
+           dictionaries concatenates back to the original;
+       (c) a set WITHOUT importance weights that has an evidence attached (what `SMCSamples.to_standard_samples()` returns when a
+           density column is missing, or an attribute set by the user) carries it through every kind of selection."""
+    from aspire.samples import BaseSamples, Samples, SMCSamples
+
+    n, d = 6, 2
+    r = np.random.default_rng(7)
+    xs = r.normal(0, 1, (n, d))
+    cols = {"log_likelihood": r.normal(0, 1, n), "log_prior": r.normal(0, 1, n), "log_q": r.normal(0, 1, n)}
+
+    def npf(v):
+        return None if v is None else ns.to_np(v).astype(float)
+
+    for nsn in NSS:
+        xp = ns.get_xp(nsn)
+        dt = ns.native_dtype(nsn, "f64")
+        for cname, K in (("base", BaseSamples), ("samples", Samples), ("smc", SMCSamples)):
+            extra = {"beta": 0.5} if cname == "smc" else {}
+            # (a) all-NaN field
+            for fld in ("log_likelihood", "log_prior", "log_q"):
+                kw = {k: (np.full(n, np.nan) if k == fld else v) for k, v in cols.items()}
+                case = {"level": "corpus", "what": "all-NaN field", "cls": cname, "ns": nsn, "field": fld}
+                chk.count("corpus:all_nan_field")
+                try:
+                    with np.errstate(all="ignore"):
+                        s = K(x=xs, xp=xp, dtype=dt, **kw, **extra)
+                        for flat in (True, False):
+                            t = K.from_dict(s.to_dict(flat=flat))
+                            bad = [k for k in cols if (getattr(t, k) is None) or not np.array_equal(npf(getattr(t, k)), npf(getattr(s, k)), equal_nan=True)]
+                            if bad or not np.array_equal(npf(t.x), npf(s.x)):
+                                chk.fail("dict round trip restores every field", {**case, "flat": flat},
+                                         f"fields {bad} lost or changed by to_dict/from_dict when {fld} is NaN in every row",
+                                         {"cls": cname, "op": "dict", "fields": bad, "corpus": "all_nan"})
+                    chk.case(case if chk.evaluations < 40 else None, json.dumps(case))
+                except Exception as e:   # noqa
+                    chk.fail("dict round trip total", case, repr(e)[:300], {"cls": cname, "op": "dict", "corpus": "all_nan", "exc": type(e).__name__})
+            # (b) empty selection and a partition taken through dictionaries
+            case = {"level": "corpus", "what": "empty selection / partition through dictionaries", "cls": cname, "ns": nsn}
+            chk.count("corpus:empty_and_partition")
+            try:
+                with np.errstate(all="ignore"):
+                    s = K(x=xs, xp=xp, dtype=dt, **cols, **extra)
+                    e0 = s[:0]
+                    for flat in (True, False):
+                        t = K.from_dict(e0.to_dict(flat=flat))
+                        bad = [k for k in cols if getattr(t, k) is None or len(npf(getattr(t, k))) != 0]
+                        if bad or len(npf(t.x)) != 0:
+                            chk.fail("dict round trip restores every field", {**case, "flat": flat}, f"empty selection: fields {bad} are not empty columns after the round trip",
+                                     {"cls": cname, "op": "dict", "fields": bad, "corpus": "empty"})
+                    parts = [K.from_dict(s[:2].to_dict(flat=False)), K.from_dict(s[2:2].to_dict(flat=False)), K.from_dict(s[2:].to_dict(flat=False))]
+                    u = K.concatenate(parts)
+                    bad = [k for k in cols if getattr(u, k) is None or not np.array_equal(npf(getattr(u, k)), npf(getattr(s, k)))]
+                    if bad or not np.array_equal(npf(u.x), npf(s.x)):
+                        chk.fail("concatenating the pieces of a partition restores the original", case, f"fields {bad} differ after a partition through dictionaries (one piece empty)",
+                                 {"cls": cname, "op": "partcat", "fields": bad, "corpus": "empty"})
+                chk.case(case if chk.evaluations < 40 else None, json.dumps(case))
+            except Exception as e:   # noqa
+                chk.fail("selection total" if cname == "samples" else "dict round trip total", case, repr(e)[:300],
+                         {"cls": cname, "op": "dict", "corpus": "empty", "exc": type(e).__name__, "weighted": cname == "samples"})
+            if cname == "samples":
+                # the same on a set without importance weights (an empty WEIGHTED set cannot be built: known finding)
+                case = {"level": "corpus", "what": "empty selection / partition through dictionaries (unweighted)", "cls": cname, "ns": nsn}
+                chk.count("corpus:empty_and_partition")
+                try:
+                    kw2 = {k: v for k, v in cols.items() if k != "log_q"}
+                    s = K(x=xs, xp=xp, dtype=dt, **kw2)
+                    parts = [K.from_dict(s[:2].to_dict(flat=False)), K.from_dict(s[2:2].to_dict(flat=False)), K.from_dict(s[2:].to_dict(flat=True))]
+                    u = K.concatenate(parts)
+                    bad = [k for k in kw2 if getattr(u, k) is None or not np.array_equal(npf(getattr(u, k)), npf(getattr(s, k)))]
+                    if bad or not np.array_equal(npf(u.x), npf(s.x)):
+                        chk.fail("concatenating the pieces of a partition restores the original", case, f"fields {bad} differ after a partition through dictionaries (one piece empty)",
+                                 {"cls": cname, "op": "partcat", "fields": bad, "corpus": "empty"})
+                    chk.case(case if chk.evaluations < 40 else None, json.dumps(case))
+                except Exception as e:   # noqa
+                    chk.fail("dict round trip total", case, repr(e)[:300], {"cls": cname, "op": "dict", "corpus": "empty", "exc": type(e).__name__})
+        # (c) evidence attached to a set without weights
+        for missing in ("log_q", "log_likelihood", "log_prior"):
+            for how in ("to_standard_samples", "attribute"):
+                case = {"level": "corpus", "what": "evidence on an unweighted set", "ns": nsn, "missing": missing, "how": how}
+                chk.count("corpus:unweighted_with_evidence")
+                try:
+                    kw = {k: v for k, v in cols.items() if k != missing}
+                    if how == "to_standard_samples":
+                        sm = SMCSamples(x=xs, xp=xp, dtype=dt, beta=1.0, log_evidence=-3.25, log_evidence_error=0.125, **kw)
+                        s = sm.to_standard_samples()
+                    else:
+                        s = Samples(x=xs, xp=xp, dtype=dt, **kw)
+                        s.log_evidence, s.log_evidence_error = -3.25, 0.125
+                    if s.log_evidence is None:
+                        chk.case(None, None)
+                        continue
+                    sels = {"slice": s[1:5], "step": s[::2], "mask": s[xp.asarray(np.array([True, False, True, True, False, True]))],
+                            "index": s[xp.asarray(np.array([4, 0, 0, 2]))], "chained": s[1:][::2]}
+                    for nm, t in sels.items():
+                        ze, zr = t.log_evidence, t.log_evidence_error
+                        if ze is None or zr is None or abs(float(ze) + 3.25) > 1e-6 or abs(float(zr) - 0.125) > 1e-6:
+                            chk.fail("evidence attached to a set is carried by selection", {**case, "selection": nm},
+                                     f"selection `{nm}` of an unweighted set with log_evidence=-3.25 +/- 0.125 has log_evidence={ze!r}, error={zr!r}",
+                                     {"cls": "samples", "op": "sel", "fields": ["logZ", "logZerr"], "corpus": "unweighted_evidence"})
+                            break
+                    chk.case(case if chk.evaluations < 40 else None, json.dumps(case))
+                except Exception as e:   # noqa
+                    chk.fail("selection total", case, repr(e)[:300], {"cls": "samples", "op": "sel", "corpus": "unweighted_evidence", "exc": type(e).__name__})
+
+
 def run(chk: core.Check):
+    check_corpus(chk)
     n_cases = 540 if chk.tier == "quick" else 8100
     r = np.random.default_rng(chk.seed + 16_016)
     chk.rule = ("random op sequences (index array incl. negative spellings / int / slice / mask / mask-partition+concatenate / "
